@@ -168,20 +168,10 @@ def corr(ctx, oracle_only=False):
                         res.violate('stored-psd-not-truncation', 'stored PSD is not the state with classes < 1 (and unstable classes) set to 0', case)
                     slack = m0 - float(stored.sum())
                     if not (-1e-9 * m0 <= slack <= n + 1e-9 * m0):
-                        # known finding: a class whose growth rate changes sign inside it (left face drains to the smaller class,
-                        # right face to the larger one) is limited FACE BY FACE, so it may lose up to twice what it holds when it
-                        # lies below the dissolution index (no step limit): the state goes negative there and is zeroed on storing.
-                        # Only that specific mechanism is matched: every negative class drains through both faces, each face obeys
-                        # the limiter, and the negative entries account for the whole slack.
-                        neg = [i for i in range(n) if xproc[i] < 0]
-                        both = [i for i in neg if nf[i] < 0 < nf[i + 1] and -nf[i] * dt <= xold[i] * (1 + 1e-9) and nf[i + 1] * dt <= xold[i] * (1 + 1e-9)]
-                        negsum = -float(sum(xproc[i] for i in neg))
-                        if neg and len(both) == len(neg) and -1e-9 * m0 <= slack + negsum <= n + 1e-9 * m0:
-                            res.violate('class-drained-through-both-faces', 'a class below the dissolution index lost more than it held (growth '
-                                        'rate changes sign inside it, both faces limited separately); the negative population is zeroed on storing',
-                                        dict(case, classes=neg[:5], created=negsum), slack, n)
-                        else:
-                            res.violate('truncation-slack', 'M0(state) - M0(stored) outside [0, #classes]', case, slack, n)
+                        # a state that is negative beyond rounding (zeroed on storing: particles created) shows up here; since the
+                        # repair of correctdXdtEuler (total outflow of a class limited, known_findings.txt 'fixed: property=C02 f9a39e6')
+                        # the corrected update keeps every class non-negative (C07.corrected_update_nonneg), so there is no exemption
+                        res.violate('truncation-slack', 'M0(state) - M0(stored) outside [0, #classes]', case, slack, n)
                 elif post['bins'] > pre['bins'] and abs(post['bounds'][0] - pre['bounds'][0]) <= 1e-12 * pre['bounds'][0] and \
                         close((post['bounds'][1] - post['bounds'][0]) / post['bins'], (pre['bounds'][1] - pre['bounds'][0]) / pre['bins'], 1e-9):
                     res.count('update:extended')
@@ -219,7 +209,7 @@ def corr(ctx, oracle_only=False):
     # the COMPOSED step (KWNFull.eulerStep): transport, correction, truncation, extension / re-mesh and the recorded statistics of every
     # accepted step of real runs must be those of the model given the same entry state and backend answers
     if not oracle_only:
-        kwnfull.refine_scenarios(ctx, res, PROP, [('alzr-loaded', ctx.n(80, 170)), ('alzr-small-grid', ctx.n(400, 1500))] +
+        kwnfull.refine_scenarios(ctx, res, PROP, [('alzr-loaded', ctx.n(80, 170)), ('alzr-small-grid', ctx.n(400, 1500)), ('alzr-loaded@rk4', ctx.n(50, 170))] +
                                  ([('almgsi-2phase-loaded', 200), ('nicral', 300)] if ctx.thorough else []))
     vlib.finish_guard(res)
     return res
